@@ -406,16 +406,33 @@ func checkSigningString(c *Ctx, t *Terminal, fname, label string, sg *Event, qs 
 					}
 				}
 				_, fresh := u.(*AllocV)
-				if len(adds) != 1 || !fresh {
+				var kV, vV Val
+				if len(adds) == 1 {
+					kV, vV = adds[0].Args[1], adds[0].Args[2]
+				} else if len(adds) == 0 {
+					// url.Values{k: {v}}: a map literal with one entry holding one value
+					var ups []*Event
+					for _, e := range t.St.events {
+						if e.Kind == EvMapUpdate && e.X != nil && e.X.Key() == u.Key() && e.Val != nil && e.Seq < sg.Seq {
+							ups = append(ups, e)
+						}
+					}
+					if len(ups) == 1 {
+						if es, okE := sliceElems(t, ups[0].Val); okE && len(es) == 1 {
+							kV, vV = ups[0].I, es[0]
+						}
+					}
+				}
+				if kV == nil || !fresh {
 					bad("an Encode() fragment does not come from a fresh url.Values holding exactly one parameter")
 					return
 				}
-				k, ok := constString(adds[0].Args[1])
+				k, ok := constString(kV)
 				if !ok {
 					bad("fragment key is not a constant")
 					return
 				}
-				pairs = append(pairs, pair{k, ap(adds[0].Args[2]), "Values.Encode"})
+				pairs = append(pairs, pair{k, ap(vV), "Values.Encode"})
 				continue
 			}
 			bad("a pair without '='")
